@@ -161,6 +161,14 @@ def main(argv=None):
         from .backends import solve_all
         scratch = os.path.join(VERIF, ".scratch", f"smt-{os.getpid()}")
         solve_all(ctx.vcs, tier=args.tier, jobs=args.jobs, scratch=scratch)
+        # second chance for undecided obligations: thorough budgets, fewer processes (less contention)
+        again = [v for v in ctx.vcs if v.kind == "valid" and v.result["verdict"] == "unknown"]
+        if again:
+            first = {v.name: v.result for v in again}
+            solve_all(again, tier="thorough", jobs=min(8, len(again)), scratch=scratch)
+            for v in again:
+                v.result["log"] = first[v.name]["log"] + [("second-chance", "thorough budgets", 0)] + v.result["log"]
+                v.result["seconds"] += first[v.name]["seconds"]
         import shutil
         shutil.rmtree(scratch, ignore_errors=True)
         status = conclude(ctx, mod, t0, evidence_path, args)
@@ -250,10 +258,24 @@ def conclude(ctx, mod, t0, evidence_path, args):
         replayed = bool(rep and rep.get("replayed"))
         lines.append(f"VIOLATION property={prop} replay={os.path.relpath(path, VERIF)}" + ("" if replayed else " no-failing-input-found"))
         status = 1
-    if status == 0 and undecided:
-        status = 2
-        for v in undecided:
-            lines.append(f"UNDECIDED property={prop} obligation={v.name} backends={v.result['log']}")
+    # an obligation that is not discharged is reported as the violation (brief: "the check still reports the
+    # violation, the replay file names the failed obligation and carries the verifier's output"), unless the back
+    # ends themselves failed (parse/solver errors), which is a checker error
+    for v in undecided:
+        broken = all(str(x[1]).startswith("error") for x in v.result["log"] if x[0] != "second-chance")
+        if broken:
+            status = max(status, 3) if status != 1 else 1
+            lines.append(f"CHECKER-ERROR property={prop} back ends failed on {v.name}: {v.result['log'][:2]}")
+            continue
+        fname = re.sub(r"[^A-Za-z0-9_.#@-]+", "_", v.name)[:150] + ".undischarged.json"
+        path = os.path.join(VERIF, "replays", prop, fname)
+        with open(path, "w") as fp:
+            json.dump({"property": prop, "obligation": v.name, "note": v.note, "verdict": "not discharged (no counter-model)",
+                       "solver": v.result, "tier": ctx.tier,
+                       "explanation": "every back end returned unknown/timeout within the quick and the thorough budgets; on the "
+                                      "unchanged tree this obligation is discharged"}, fp, indent=1, default=str)
+        lines.append(f"VIOLATION property={prop} replay={os.path.relpath(path, VERIF)} no-failing-input-found")
+        status = 1
     if vacuous:
         status = max(status, 3) if status != 1 else 1
         for v in vacuous:
